@@ -199,7 +199,7 @@ ScalarEquiv(shape) == Prod(shape) = 1
 LazyT(S, h, p) ==   \* p a valid non-identity permutation, tensor not scalar-equivalent
     LET t == S.live[h]
     IN IF t.pend # NoPend
-       THEN IF IsIdent(Compose(t.pend[1].perm, p))
+       THEN IF t.pend[1].perm # <<>> /\ IsIdent(Compose(t.pend[1].perm, p))   \* <<>>: the permutation is not remembered (clones)
             THEN UTT(S, h)                       \* the two transposes cancel
             ELSE LET S1 == PhysT(S, h)           \* materialise the pending one first
                      t1 == S1.live[h]
@@ -216,15 +216,27 @@ TT(S, h, p0) ==
     IN IF ~IsPerm(p, Len(t.shape)) THEN Free(S)
        ELSE IF ScalarEquiv(t.shape) \/ IsIdent(p) THEN OkH(S, 0)   \* no-op (a no-op error is swallowed)
        ELSE Tagged(OkH(LazyT(S, h, p), 0),
-                   IF t.pend # NoPend /\ ~IsIdent(Compose(t.pend[1].perm, p)) THEN PhysTags(S, h) ELSE {})
+                   IF t.pend # NoPend /\ (t.pend[1].perm = <<>> \/ ~IsIdent(Compose(t.pend[1].perm, p))) THEN PhysTags(S, h) ELSE {})
 
 TransposeT(S, h) == Tagged(OkH(PhysT(S, h), 0), PhysTags(S, h))
 
 (* a fresh tensor holding copies of the elements of t (same logical arrangement) *)
+(* position of cell c among the cells of t in storage order (0-based) *)
+StoRank(t, c) == Cardinality({x \in Range(t.cells) : x < c})
+
+(* A raw copy (Clone, SafeT, and the clone that safe arithmetic starts from) has the storage
+   arrangement of its source: element k of the copy sits where element k of the source sat,
+   relative to the other elements.  This matters only when the copy is later transposed
+   physically while a view of it is alive. *)
 FreshCopy(S, t) ==
-    LET a  == AllocL(S, ValuesOf(S, t.cells), "l")
-        f  == [k \in 1..Len(t.cells) |-> a.start + k - 1]
-        S1 == IF IsMaskedT(S, t) THEN SetMaskAll(a.S, Len(S.allocs) + 1, MaskOf(S, t)) ELSE a.S
+    LET start == Len(S.heap) + 1
+        f  == [k \in 1..Len(t.cells) |-> start + StoRank(t, t.cells[k])]
+        init == [i \in 1..Len(t.cells) |-> S.heap[t.cells[CHOOSE k \in 1..Len(t.cells) : f[k] = start + i - 1]]]
+        a  == AllocL(S, init, "l")
+        S1 == IF IsMaskedT(S, t)
+              THEN SetMaskAll(a.S, Len(S.allocs) + 1,
+                              [i \in 1..Len(t.cells) |-> MaskBit(S, t.cells[CHOOSE k \in 1..Len(t.cells) : f[k] = start + i - 1])])
+              ELSE a.S
     IN [S |-> S1, cells |-> f, al |-> Len(S.allocs) + 1]
 
 SafeTT(S, h, p0) ==
@@ -253,10 +265,17 @@ RollAxisT(S, h, axis, start, safe) ==
 (***************************************************************************)
 (* Copies                                                                  *)
 (***************************************************************************)
+(* a materialised copy is contiguous in the logical order *)
+FreshCopyRowMajor(S, t) ==
+    LET a  == AllocL(S, ValuesOf(S, t.cells), "l")
+        f  == [k \in 1..Len(t.cells) |-> a.start + k - 1]
+        S1 == IF IsMaskedT(S, t) THEN SetMaskAll(a.S, Len(S.allocs) + 1, MaskOf(S, t)) ELSE a.S
+    IN [S |-> S1, cells |-> f, al |-> Len(S.allocs) + 1]
+
 MaterializeT(S, h) ==
     LET t == S.live[h]
     IN IF ~t.view /\ t.pend = NoPend THEN OkH(S, h)
-       ELSE LET c == FreshCopy(S, t)
+       ELSE LET c == FreshCopyRowMajor(S, t)
             IN OkH(AddLive(c.S, [shape |-> t.shape, cells |-> c.cells, view |-> FALSE,
                                  pend |-> NoPend, ord |-> t.ord, al |-> c.al, wide |-> FALSE]), NewH(S))
 
@@ -266,7 +285,7 @@ CloneT(S, h) ==
         (* the clone keeps a pending transpose: undoing it restores the clone's own original arrangement *)
         mp(cs) == [k \in 1..Len(cs) |-> c.cells[CHOOSE j \in 1..Len(t.cells) : t.cells[j] = cs[k]]]
         pd == IF t.pend = NoPend THEN NoPend
-              ELSE <<[shape |-> t.pend[1].shape, cells |-> mp(t.pend[1].cells), perm |-> t.pend[1].perm]>>
+              ELSE <<[shape |-> t.pend[1].shape, cells |-> mp(t.pend[1].cells), perm |-> <<>>]>>   \* a clone does not remember the axes
     IN OkH(AddLive(c.S, [shape |-> t.shape, cells |-> c.cells, view |-> FALSE,
                          pend |-> pd, ord |-> t.ord, al |-> c.al, wide |-> FALSE]), NewH(S))
 
@@ -354,6 +373,16 @@ FreshResult(S, shape, ord, vals, et) ==
               pend |-> NoPend, ord |-> ord, al |-> Len(S.allocs) + 1, wide |-> FALSE]
     IN OkH(AddLive(SetET(a.S, et), t), NewH(S))
 
+(* a result that the library builds from a clone of operand tu: same storage arrangement as tu *)
+FreshResultLike(S, tu, shape, ord, vals) ==
+    LET start == Len(S.heap) + 1
+        f == [k \in 1..Len(vals) |-> start + StoRank(tu, tu.cells[k])]
+        init == [i \in 1..Len(vals) |-> vals[CHOOSE k \in 1..Len(vals) : f[k] = start + i - 1]]
+        a == AllocL(S, init, "l")
+        t == [shape |-> shape, cells |-> f, view |-> FALSE, pend |-> NoPend, ord |-> ord,
+              al |-> Len(S.allocs) + 1, wide |-> FALSE]
+    IN OkH(AddLive(a.S, t), NewH(S))
+
 (* the result of an operation on masked operands is masked where any operand is *)
 WithResultMask(o, ms) ==
     IF ms = <<>> \/ o.res.st # "ok" \/ o.res.h = 0 THEN o
@@ -364,9 +393,24 @@ OperandMask(S, t, u) ==
     IF ~IsMaskedT(S, t) /\ ~IsMaskedT(S, u) THEN <<>>
     ELSE [k \in 1..Len(t.cells) |-> Or01(MaskBit(S, t.cells[k]), MaskBit(S, u.cells[k]))]
 
+(* The fresh result of a safe arithmetic / unary operation is built by the library as a clone of its
+   tensor operand u and therefore keeps u's pending lazy transpose (UT on the result gives the result
+   for the un-transposed operand).  Deliberate modelling of what the code does; results with an
+   element type of their own (comparisons) and all other operations start without one. *)
+InheritPend(S, o, u, et) ==
+    IF u = 0 \/ et # "" \/ o.res.st # "ok" \/ o.res.h = 0 THEN o
+    ELSE LET t == S.live[u]
+             r == o.S.live[o.res.h]
+         IN IF t.pend = NoPend \/ Len(t.cells) # Len(r.cells) THEN o
+            ELSE LET mp(cs) == [k \in 1..Len(cs) |-> r.cells[CHOOSE j \in 1..Len(t.cells) : t.cells[j] = cs[k]]]
+                 IN Out(SetLive(o.S, o.res.h, [r EXCEPT !.pend = <<[shape |-> t.pend[1].shape, cells |-> mp(t.pend[1].cells),
+                                                                   perm |-> <<>>]>>]), o.res)
+
 Deliver(S, shape, ord, vals, mode, d, u, et, mayRefuse) ==
-    CASE mode = "safe"   -> LET o == FreshResult(S, shape, ord, vals, et)
-                            IN Out(o.S, [o.res EXCEPT !.ref = mayRefuse])
+    CASE mode = "safe"   -> LET o == IF et = "" /\ u # 0 /\ Len(S.live[u].cells) = Len(vals)
+                                     THEN FreshResultLike(S, S.live[u], shape, ord, vals)
+                                     ELSE FreshResult(S, shape, ord, vals, IF et = "same" THEN "" ELSE et)
+                            IN InheritPend(S, Out(o.S, [o.res EXCEPT !.ref = mayRefuse]), u, et)
       [] mode = "unsafe" -> Out(WriteCells(S, S.live[u].cells, vals), Res("ok", mayRefuse, u, <<>>, <<>>))
       [] mode = "reuse"  ->
             LET D == S.live[d]
@@ -394,7 +438,8 @@ BinVals(S, h, f, form, b, head) ==
 ArithT(S, h, f, form, b, mode, d) ==
     LET t == S.live[h]
     IN IF form = "TT" /\ S.live[b].shape # t.shape THEN Err(S)
-       ELSE LET o == Deliver(S, t.shape, t.ord, BinVals(S, h, f, form, b, "bin"), mode, d, h, "",
+       ELSE LET o == Deliver(S, t.shape, t.ord, BinVals(S, h, f, form, b, "bin"), mode, d, h,
+                             IF f \in {"min", "max"} THEN "same" ELSE "",     \* min/max allocate a new result, no clone
                              (* an aliasing reuse may be refused *)
                              mode = "reuse" /\ (d = h \/ (form = "TT" /\ d = b)))
             IN IF mode = "safe" THEN WithResultMask(o, OperandMask(S, t, IF form = "TT" THEN S.live[b] ELSE t)) ELSE o
